@@ -56,12 +56,13 @@ class HorizonBytesIO(io.BytesIO):
 
 class SeekableFeed(io.RawIOBase):
     """Seekable, not a BytesIO; data appended over time; None while open and empty, b'' after close."""
-    def __init__(self):
+    def __init__(self, max_read=None):
         io.RawIOBase.__init__(self)
         self.buf = bytearray()
         self.pos = 0
         self.eof = False
         self.c = Counters()
+        self.max_read = max_read          # a raw stream may hand out less than asked for although more is there
 
     def feed_bytes(self, data):
         self.buf += data
@@ -102,6 +103,9 @@ class SeekableFeed(io.RawIOBase):
             if n is not None and n > avail:
                 self.c.starved = True
             n = avail
+        if self.max_read is not None and n > self.max_read:
+            self.c.starved = True         # the reader sees a short read
+            n = self.max_read
         out = bytes(self.buf[self.pos:self.pos + n])
         self.pos += n
         return out
@@ -110,12 +114,13 @@ class SeekableFeed(io.RawIOBase):
 class PipeFeed(io.RawIOBase):
     """Non-seekable (goes through the library's CachingStreamWrapper); None while open and empty, b'' after
     close; short reads when fewer octets are queued than asked for."""
-    def __init__(self, none_when_empty=True):
+    def __init__(self, none_when_empty=True, max_read=None):
         io.RawIOBase.__init__(self)
         self.q = bytearray()
         self.eof = False
         self.c = Counters()
         self.none_when_empty = none_when_empty
+        self.max_read = max_read
 
     def feed_bytes(self, data):
         self.q += data
@@ -140,6 +145,9 @@ class PipeFeed(io.RawIOBase):
             if n is not None and n > len(self.q):
                 self.c.starved = True
             n = len(self.q)
+        if self.max_read is not None and n > self.max_read:
+            self.c.starved = True
+            n = self.max_read
         out = bytes(self.q[:n])
         del self.q[:n]
         self.c.handed += len(out)
